@@ -2,7 +2,7 @@
    Final statements only; for EVERY callee record and both state machines; stated on the reference machine
    (Model/Parser.v [reference]); C01 relates the implementation's machine to it on quiet runs. *)
 From Coq Require Import ZArith.
-From Httoop Require Import Model.Parser Model.Composer Proofs.ParserFrag Proofs.ParserFraming Proofs.ParserWf Proofs.Http1ReaderP Proofs.ParserQuiet Proofs.ParserChunked Corr.Parser.
+From Httoop Require Import Model.Parser Model.Composer Proofs.ParserFrag Proofs.ParserFraming Proofs.ParserWf Proofs.Http1ReaderP Proofs.ParserQuiet Proofs.ParserChunked Proofs.ParserCut Corr.Parser.
 
 (* Isolation / pipelining: if [a] is parsed into complete messages leaving the machine idle, then for ANY
    following octets [b] the deliveries are those of [a] followed by exactly the deliveries of [b] parsed
@@ -146,6 +146,39 @@ Theorem C02_server_pipeline_fragmented_real : forall (C : callees) (ms : list wm
 Proof. exact server_pipeline_fragmented_real_unconditional. Qed.
 Print Assumptions C02_server_pipeline_fragmented_real.
 
+(* The last sentence of the property - "when the stream is cut at any point exactly the messages wholly contained in the
+   received prefix have been delivered while the rest is retained, not lost or delivered early" - for the machines AS
+   IMPLEMENTED: in a pipeline ms1 ++ m :: ms2 of valid messages cut INSIDE m (w_wire m = p ++ q, q non-empty; p may be empty,
+   i.e. the cut may also be a message boundary), EVERY fragmentation of the received prefix delivers exactly ms1 and raises
+   nothing (m is not delivered early), and from the state reached EVERY fragmentation of the remainder delivers exactly
+   m :: ms2 and ends idle (nothing is lost, nothing is delivered twice). *)
+Theorem C02_cut_anywhere_reference : forall (C : callees) (k : kind) (ms1 ms2 : list wmsg) (m : wmsg) (p q : bytes),
+  Forall (w_ok C k) (ms1 ++ m :: ms2) -> w_wire m = p ++ q -> q <> nil ->
+  forall frags, concat_bytes frags = concat_bytes (map w_wire ms1) ++ p ->
+  exists s1, run_keep reference C k init frags = (s1, map w_delivered ms1, None) /\
+    forall frags2, concat_bytes frags2 = q ++ concat_bytes (map w_wire ms2) ->
+      run_keep reference C k s1 frags2 = (init, map w_delivered (m :: ms2), None).
+Proof. exact cut_pipeline_reference. Qed.
+Print Assumptions C02_cut_anywhere_reference.
+
+Theorem C02_client_cut_anywhere_real : forall (C : callees) (ms1 : list wmsg) (m : wmsg) (ms2 : list wmsg) (p q : bytes) (frags : list bytes),
+  Forall (w_ok C Client) (ms1 ++ m :: ms2) -> Forall (fun x => no_lf (w_line x) = true) (ms1 ++ m :: ms2) ->
+  w_wire m = p ++ q -> q <> nil -> concat_bytes frags = concat_bytes (map w_wire ms1) ++ p ->
+  exists s1, run_keep real C Client init frags = (s1, map w_delivered ms1, None) /\
+    forall frags2, concat_bytes frags2 = q ++ concat_bytes (map w_wire ms2) ->
+      run_keep real C Client s1 frags2 = (init, map w_delivered (m :: ms2), None).
+Proof. exact client_cut_anywhere. Qed.
+Print Assumptions C02_client_cut_anywhere_real.
+
+Theorem C02_server_cut_anywhere_real : forall (C : callees) (ms1 : list wmsg) (m : wmsg) (ms2 : list wmsg) (p q : bytes) (frags : list bytes),
+  Forall (w_ok C Server) (ms1 ++ m :: ms2) -> Forall (fun x => no_lf (w_line x) = true) (ms1 ++ m :: ms2) ->
+  w_wire m = p ++ q -> q <> nil -> concat_bytes frags = concat_bytes (map w_wire ms1) ++ p ->
+  exists s1, run_keep real C Server init frags = (s1, map w_delivered ms1, None) /\
+    forall frags2, concat_bytes frags2 = q ++ concat_bytes (map w_wire ms2) ->
+      run_keep real C Server s1 frags2 = (init, map w_delivered (m :: ms2), None).
+Proof. exact server_cut_anywhere. Qed.
+Print Assumptions C02_server_cut_anywhere_real.
+
 (* The one configuration in which the client machine must NOT read a body: the message whose framing fields it strips
    ([c_connect]: a successful response to its CONNECT request, RFC 7231 4.3.6) ends with its header section whatever
    Transfer-Encoding / Content-Length it carries; it is delivered with an empty body, without those fields, with
@@ -212,3 +245,19 @@ Example C02_example :
   hparse [] block = Some h /\ cut (CRLF ++ CRLF) (block ++ CRLF) = None /\ hget K_CL h = Some (dec_of_N 3) /\
   c_hdrs (callees_of T) true h = HOk.
 Proof. vm_compute. auto. Qed.
+
+(* non-vacuity of the cut statement: the pipeline [M1; M2; M1] cut 40 octets into M2 (inside its chunked body) *)
+Example C02_cut_example :
+  let p := firstn 40 (w_wire M2) in let q := skipn 40 (w_wire M2) in
+  w_wire M2 = p ++ q /\ q <> nil /\ Forall (w_ok (callees_of T2) Client) ([M1] ++ M2 :: [M1]) /\
+  Forall (fun x => no_lf (w_line x) = true) ([M1] ++ M2 :: [M1]) /\
+  (let r := run_keep real (callees_of T2) Client init (map (fun c => [c]) (concat_bytes (map w_wire [M1]) ++ p)) in
+   snd (fst r) = map w_delivered [M1] /\ snd r = None /\ fst (fst r) <> init).
+Proof.
+  assert (H1 : w_ok (callees_of T2) Client M1) by (unfold w_ok; vm_compute; repeat split; try reflexivity; discriminate).
+  assert (H2 : w_ok (callees_of T2) Client M2) by (unfold w_ok; vm_compute; repeat split; try reflexivity; discriminate).
+  cbv zeta. split; [symmetry; apply firstn_skipn|]. split; [vm_compute; discriminate|].
+  split; [cbn [app]; apply Forall_cons; [exact H1 | apply Forall_cons; [exact H2 | apply Forall_cons; [exact H1 | apply Forall_nil]]]|].
+  split; [cbn [app]; apply Forall_cons; [reflexivity | apply Forall_cons; [reflexivity | apply Forall_cons; [reflexivity | apply Forall_nil]]]|].
+  vm_compute. split; [reflexivity | split; [reflexivity | discriminate]].
+Qed.
